@@ -30,6 +30,12 @@ type specErr struct{ msg string }
 func (ev *Evaluator) fail(f string, a ...interface{}) { panic(specErr{fmt.Sprintf(f, a...)}) }
 
 func (ev *Evaluator) EvalBool(e *Expr, src string) *Term {
+	// contract expressions read nested proto []*T fields by value (no fresh heap regions under quantifiers)
+	if ev.M != nil {
+		saved := ev.M.SpecView
+		ev.M.SpecView = true
+		defer func(m *Machine) { m.SpecView = saved }(ev.M)
+	}
 	v := ev.Eval(e)
 	t, ok := v.(*Term)
 	if !ok || t.Sort != SBool {
